@@ -333,7 +333,8 @@ def reference(d):
     """textbook value for a VALID descriptor"""
     fn, o, a = d["fn"], d["opts"], d["arrays"]
     if fn == "mode_dot":
-        return ref_mode_dot(a[0], a[1], o["mode"], o["transpose"])
+        m = o["mode"] + (np.asarray(a[0]).ndim if o["mode"] < 0 else 0)     # negative modes count from the end
+        return ref_mode_dot(a[0], a[1], m, o["transpose"])
     if fn == "multi_mode_dot":
         return ref_multi_mode_dot(a[0], a[1:], o["modes"], o["skip"], o["transpose"])
     if fn == "khatri_rao":
@@ -368,6 +369,8 @@ def coq_ops(d, be):
     """Gallina op literal(s) for a descriptor under a backend"""
     fn, o = d["fn"], d["opts"]
     b = C.boolc(be == "einsum")
+    if fn == "mode_dot" and o["mode"] < 0:
+        return f"(OModeDotZ {b} ({o['mode']})%Z {C.boolc(o['transpose'])})"
     if fn == "mode_dot":
         return f"(OModeDot {b} {o['mode']}%nat {C.boolc(o['transpose'])})"
     if fn == "multi_mode_dot":
@@ -502,6 +505,21 @@ def gen_descriptors(tier, rng):
     yield D("mode_dot", [g.arr((2, 1)), g.arr((3,))], valid=False, mode=1, transpose=False)
     yield D("mode_dot", [g.arr((2, 3)), g.arr((1,))], valid=False, mode=1, transpose=False)
     yield D("mode_dot", [g.arr((3, 2)), g.arr((1, 2))], valid=False, mode=0, transpose=True)
+
+    # negative modes (Python convention: counted from the end) on a thinned set of shapes, every negative mode x operand kind;
+    # a mode below -order is rejected.  einsum + matrix operand is the known finding einsum_mode_dot_negative_mode.
+    neg_shapes = [s for s in all_shapes if len(s) <= 3][:: (9 if quick else 3)]
+    for s in neg_shapes:
+        for mode in range(len(s)):
+            for kind in ("matrix", "vector", "transposed"):
+                k += 1
+                J = 1 + (k % 3)
+                cplx = kind == "transposed" and k % 2 == 0
+                M = g.arr((J, s[mode]), cplx) if kind == "matrix" else g.arr((s[mode],), cplx) if kind == "vector" else g.arr((s[mode], J), cplx)
+                yield D("mode_dot", [g.arr(s, cplx), M], mode=mode - len(s), transpose=(kind == "transposed"))
+    yield D("mode_dot", [g.arr((2, 3)), g.arr((2, 2))], valid=False, mode=-3, transpose=False)
+    yield D("mode_dot", [g.arr((2, 3)), g.arr((2,))], valid=False, mode=-3, transpose=False)
+    yield D("mode_dot", [g.arr((2, 3)), g.arr((2, 2))], valid=False, mode=-1, transpose=False)     # (2,2) on the last mode (size 3)
 
     # ---- multi_mode_dot
     mm_shapes = [s for s in all_shapes if len(s) <= 3 or not quick or rng.random() < 0.35]
@@ -909,7 +927,17 @@ def describe(d, be):
 # ----------------------------------------------------------------------------- known-finding classifiers
 # none: the two findings of round 1 (core inner n_modes=0; core tensordot with unsorted batched modes) were repaired in /repo
 # (f5f06aa, 8cd4a39); their witnesses are regression cases in corpus/C02 and any recurrence is a VIOLATION.
-CLASSIFIERS = {}
+def _clf_einsum_negative_mode(f):
+    """einsum_tenalg.mode_dot with a NEGATIVE mode and a MATRIX operand (the einsum output itself, or the disagreement of the two
+    backends on such a call); every other failing input stays a VIOLATION"""
+    inp = f.get("inputs") or {}
+    o = inp.get("opts") or {}
+    arrs = inp.get("arrays") or []
+    return (inp.get("fn") == "mode_dot" and inp.get("backend") in ("einsum", "all") and isinstance(o.get("mode"), int) and o["mode"] < 0
+            and len(arrs) == 2 and np.asarray(arrs[1]).ndim == 2 and bool(inp.get("valid")))
+
+
+CLASSIFIERS = {"einsum_mode_dot_negative_mode_matrix": _clf_einsum_negative_mode}
 
 
 def entry_point(d, be):
@@ -1121,7 +1149,7 @@ def run(chk):
         chk.disagreement("corr:C02 (Model/Tenalg.v vs tensorly/tenalg)", describe(d, be))
     chk.assumptions = ["np.dot / np.kron / np.einsum / broadcasting multiply / reshape / transpose behave as modelled at index level in Model/Tenalg.v and Base/Tensor.v (checked on this run's cases)",
                        "floating-point rounding is outside the model; integer-valued operands keep every partial sum far below 2^53 so the comparison is exact",
-                       "size-0 modes, negative modes of mode_dot, repeated modes with vector operands (Python reaches negative indices there), khatri_rao of 1-D operands, einsum multi_mode_dot with a size-1 operand axis on a larger mode (np.einsum broadcasts, core and model reject), higher_order_moment of order 0 (the code returns the mean, the model rejects), weights / masks that NumPy broadcasts in a degenerate way (weights longer than a single column R = 1, masks with size-1 axes or a flat mask under the einsum backend, which the core backend accepts and np.einsum rejects) are outside the model and not generated; the int / negative / scalar / flat forms of tensordot's modes and batched_modes go to the model in the form given to the code (Model/Tenalg.v validate_contraction mirrors tenalg_utils._validate_contraction_modes; an untranslatable form is reported as a broken tie); repeated modes on one tensor, bool / NumPy-integer mode arguments are not generated"]
+                       "size-0 modes, negative modes of multi_mode_dot (wrong in both backends when a vector operand precedes: reported, fix candidate build/fix_candidates/C02_negative_modes.diff), repeated modes with vector operands (Python reaches negative indices there), khatri_rao of 1-D operands, einsum multi_mode_dot with a size-1 operand axis on a larger mode (np.einsum broadcasts, core and model reject), higher_order_moment of order 0 (the code returns the mean, the model rejects), weights / masks that NumPy broadcasts in a degenerate way (weights longer than a single column R = 1, masks with size-1 axes or a flat mask under the einsum backend, which the core backend accepts and np.einsum rejects) are outside the model and not generated; the int / negative / scalar / flat forms of tensordot's modes and batched_modes go to the model in the form given to the code (Model/Tenalg.v validate_contraction mirrors tenalg_utils._validate_contraction_modes; an untranslatable form is reported as a broken tie); repeated modes on one tensor, bool / NumPy-integer mode arguments are not generated"]
     chk.trusted = ["explicit-loop NumPy reference formulas in harness/props/C02.py (spec-side transcription used by the Python predicate)",
                    "higher_order_moment is compared as n_samples * moment (the division by n_samples is checked to be integer-exact to 1e-9)"]
     return chk.finish(CLASSIFIERS)
